@@ -800,7 +800,30 @@ def analyse_construct(prog, F, W, fn):
             F.add('R15b', ae, fn, whatp, 'undecided', 'the verdict `%s` (line %d) does not come from the search of this iteration' % (
                 stale[0][1].text(50), stale[0][0].line))
         elif f is None:
-            F.add('R15b', ae, fn, whatp, 'undecided', 'add_edge is not directly guarded by the reachability test')
+            # a retain shortcut: the edge is added on a path that does not carry a negative hop verdict.  If the shortcut is a function of the
+            # numbers of vertices and edges only (e.g. "m < n, so the graph is a forest"), evaluate it on the small-graph grid: it must not hold
+            # for any (m, n) with m >= 3, because such a graph can contain a triangle (plus isolated vertices), which would be retained whole
+            pca = ex.path_condition(cfg, ae, reach_leaf)
+            opq = [fn.nodes[a_[1]] for a_ in ex.f_atoms(pca) if isinstance(a_, tuple) and a_[0] == 'opaque' and loop.body is not None and
+                   loop.body.is_ancestor_of(fn.nodes[a_[1]])]
+            decided = False
+            for o_ in opq:
+                ov = ex.var_of(o_)
+                cond_node = ex.unique_def(fn, ov) if ov is not None and ex.unique_def(fn, ov) is not None else o_
+                g_ = grid_guard([(cond_node, True)])
+                if g_ is None:
+                    continue
+                decided = True
+                bad = [(m_, n_) for (m_, n_), holds in sorted(g_.items()) if holds and m_ >= 3]
+                if bad:
+                    F.add('R15b', ae, fn, whatp, 'violation',
+                          'under `%s` every edge is retained without the hop test; the condition holds for a graph with m=%d edges and n=%d vertices, which can '
+                          'contain a triangle (plus isolated vertices / further components): a cycle of at most 2k edges stays in the spanner' % (
+                              cond_node.text(50), bad[0][0], bad[0][1]), key='R15b|%s|retain-shortcut' % fn.g)
+                else:
+                    F.add('R15b', ae, fn, whatp, 'ok', 'retain shortcut `%s` holds only for m <= 2' % cond_node.text(40))
+            if not decided:
+                F.add('R15b', ae, fn, whatp, 'undecided', 'add_edge is not directly guarded by the reachability test')
         elif ex.f_eval(f, {'reach': False}) and not ex.f_eval(f, {'reach': True}):
             F.add('R15b', ae, fn, whatp, 'ok')
         else:
